@@ -35,42 +35,48 @@ def _publisher():
 
 
 def _case(world: AggWorld, rnd: random.Random, cid: str, forced=None):
-    """one database content + several publishes"""
+    """one database and a history on it: preferences stored (and stored again with other roles / scope / topics / units),
+    devices subscribed, notifications published in between"""
     import openpectus.aggregator.models as Mdl
     from openpectus.aggregator.data import database
     from openpectus.aggregator.data.repository import WebPushRepository
+    import openpectus.aggregator.data.models as DMdl
+    from sqlalchemy import select
     from webpush import WebPushSubscription
     from webpush.types import WebPushKeys, AnyHttpUrl
     world.fresh_db()
-    prefs = []
-    with database.create_scope():
-        repo = WebPushRepository(database.scoped_session())
-        for u in USERS:
-            if rnd.random() < 0.2:
-                continue
-            p = {"user": u, "roles": sorted(rnd.sample(ROLES, rnd.randint(0, 2))), "scope": rnd.choice(list(SCOPES)),
-                 "topics": sorted(rnd.sample(TOPICS, rnd.randint(0, 4))), "units": sorted(rnd.sample(UNITS, rnd.randint(0, 2)))}
-            if forced:
-                p.update(forced.get(u, {}))
-            prefs.append(p)
-            repo.store_notifications_preferences(Mdl.WebPushNotificationPreferences(
-                user_id=u, user_roles=set(p["roles"]), scope=Mdl.NotificationScope(SCOPES[p["scope"]].lower()),
-                topics=set(Mdl.NotificationTopic(t) for t in p["topics"]), process_units=list(p["units"])))
-        for p in prefs:
-            for d in range(rnd.randint(0, 3)):
-                repo.store_subscription(WebPushSubscription(endpoint=AnyHttpUrl(f"https://push.invalid/{p['user']}/{d}"),
-                                                            keys=WebPushKeys(auth="a", p256dh="p")), p["user"])
-    with database.create_scope():
-        import openpectus.aggregator.data.models as DMdl
-        from sqlalchemy import select
-        subs = [{"id": int(s.id), "user": str(s.user_id)} for s in database.scoped_session().scalars(select(DMdl.WebPushSubscription)).all()]
-    pub = _publisher()
+    cur: dict[str, dict] = {}          # harness mirror, used only to label the site of a missing delivery
+    subs: list[dict] = []
     ev = []
-    for k in range(6):
+    pub = _publisher()
+    ndev = [0]
+
+    def rand_pref(u):
+        return {"user": u, "roles": sorted(rnd.sample(ROLES, rnd.randint(0, 2))), "scope": rnd.choice(list(SCOPES)),
+                "topics": sorted(rnd.sample(TOPICS, rnd.randint(0, 4))), "units": sorted(rnd.sample(UNITS, rnd.randint(0, 2)))}
+
+    def store(p):
+        with database.create_scope():
+            WebPushRepository(database.scoped_session()).store_notifications_preferences(Mdl.WebPushNotificationPreferences(
+                user_id=p["user"], user_roles=set(p["roles"]), scope=Mdl.NotificationScope(SCOPES[p["scope"]].lower()),
+                topics=set(Mdl.NotificationTopic(t) for t in p["topics"]), process_units=list(p["units"])))
+        cur[p["user"]] = p
+        ev.append({"e": "store", "pref": p})
+
+    def subscribe(u):
+        ndev[0] += 1
+        with database.create_scope():
+            WebPushRepository(database.scoped_session()).store_subscription(
+                WebPushSubscription(endpoint=AnyHttpUrl(f"https://push.invalid/{u}/{ndev[0]}"), keys=WebPushKeys(auth="a", p256dh="p")), u)
+        with database.create_scope():
+            rows = [{"id": int(x.id), "user": str(x.user_id)} for x in database.scoped_session().scalars(select(DMdl.WebPushSubscription)).all()]
+        for r in rows:
+            if r not in subs:
+                subs.append(r)
+                ev.append({"e": "subscribe", "id": r["id"], "user": r["user"]})
+
+    def publish():
         unit = rnd.choice(UNITS)
-        ed = Mdl.EngineData(engine_id=unit, computer_name="c", uod_name="u", uod_author_name="", uod_author_email="",
-                            uod_filename="", location="", engine_version="", hardware_str="", required_roles=set(),
-                            data_log_interval_seconds=1.0) if False else None
         ed = _engine_data(unit)
         ed.required_roles = set(rnd.sample(ROLES, rnd.choice([0, 0, 1, 2])))
         contributors = rnd.sample([u for u in USERS if u != "None"], rnd.randint(0, 2))
@@ -83,9 +89,34 @@ def _case(world: AggWorld, rnd: random.Random, cid: str, forced=None):
             asyncio.run(pub.publish_message(note, Mdl.NotificationTopic(topic), ed))
         except Exception as ex:
             exc = type(ex).__name__ + ": " + str(ex)[:80]
+        prefs = list(cur.values())
         ev.append({"e": "publish", "topic": topic, "unit": unit, "required": sorted(ed.required_roles), "contributors": sorted(contributors),
-                   "about": about, "prefs": prefs, "subs": subs, "posted": list(pub.posted), "exc": exc,
+                   "about": about, "posted": list(pub.posted), "exc": exc,
                    "scopeOfFirstMissing": _first_missing_scope(prefs, subs, pub.posted, topic, unit, ed.required_roles, contributors, about)})
+
+    users = [u for u in USERS if rnd.random() >= 0.2]
+    for u in users:
+        if rnd.random() < 0.5:
+            store(rand_pref(u))                      # an earlier version of the user's preferences; the next store replaces it
+        p = rand_pref(u)
+        if forced:
+            p.update(forced.get(u, {}))
+        store(p)
+        for _ in range(rnd.randint(0, 3)):
+            subscribe(u)
+    for k in range(8):
+        r = rnd.random()
+        if r < 0.25 and users:
+            u = rnd.choice(users)                    # the user's roles / choices change: stored again under the same user id
+            p = rand_pref(u)
+            if forced and k < 4:
+                p.update(forced.get(u, {}))
+            store(p)
+        elif r < 0.33 and users:
+            subscribe(rnd.choice(users))
+        else:
+            publish()
+    publish()
     return {"id": cid, "ev": ev}
 
 
@@ -149,10 +180,14 @@ def run(ctx: core.Ctx) -> core.Outcome:
         for clause, line in vs:
             ev = by_id[tid]["ev"][line - 1]
             viols.append(core.Violation(key=clause, case=tid, detail=str({k: v for k, v in ev.items()})[:600], replay={"event": ev}))
-    posts = sum(len(e["posted"]) for t in traces for e in t["ev"])
+    posts = sum(len(e["posted"]) for t in traces for e in t["ev"] if e["e"] == "publish")
+    restores = sum(max(0, sum(1 for e in t["ev"] if e["e"] == "store" and e["pref"]["user"] == u) - 1)
+                   for t in traces for u in USERS)
     cov = dict(states=res.distinct, transitions=res.generated, design_spec="WebPush", traces_validated_against_impl=len(traces),
-               samples=[{k: v for k, v in traces[0]["ev"][0].items()}], publishes=sum(len(t["ev"]) for t in traces),
+               samples=[{k: v for k, v in traces[0]["ev"][0].items()}], publishes=sum(1 for t in traces for e in t["ev"] if e["e"] == "publish"),
+               stores=sum(1 for t in traces for e in t["ev"] if e["e"] == "store"), stores_replacing_an_earlier_one=restores,
                databases=len(traces), notifications_posted=posts, **stats)
     return core.Outcome(level="model_checking", coverage=cov, violations=viols, assumptions=[
         "the HTTP post (_post_webpush) is stubbed and records the subscription id; VAPID key setup is bypassed",
-        "preferences and subscriptions are stored and queried through the real WebPushRepository on in-memory sqlite"])
+        "preferences and subscriptions are stored and queried through the real WebPushRepository on in-memory sqlite; the trace "
+        "spec rebuilds the stored preferences from the recorded store calls (the last store of a user wins)"])
